@@ -7,7 +7,7 @@
     c07.parse <now> <content>            | L
     c07.seq <nsrc> <nops> (c <src> <stream> <off> | t <src> | s)…
                                          | per op: `c` / `corrupt` / `t` / `s <n> <src…order> L`
-    c07.conc <nsrc> <ncommits> <nsaves>  | event log: cs.<i>.<k> cd.<i>.<k> ss se L   (oracle only: real goroutines)
+    c07.conc <nsrc> <m> <nf> <nsaves> <maxc>  | per save: s <lo_1…lo_n> <hi_1…hi_n> L   (oracle only: real goroutines)
     c07.proto file <nf> (<act> <op>)… <hasold> T T
                                          | <n> <trace…> killed <0|1> disk <hex|none> load L
     c07.proto gen  <nf> (<act> <op>)… <hasold> <old> <new>
@@ -210,71 +210,73 @@ def handleSeq (args impl : List String) : Option (String × String) := do
   | none => some ("bad-impl", if impl.any (·.startsWith "panic") then "fail" else "bad-impl")
   | some (m, ok) => some (unwords m, if ok then "ok" else "fail")
 
-/-! ### c07.conc: commits racing a saver (real goroutines); the event log is the case's result -/
+/-! ### c07.conc: commits racing a saver (real goroutines) on jobs with many streams -/
 
-inductive ConcEv
-  | cs (i k : Nat) | cd (i k : Nat) | ss | se (l : PM JobTable)
+/-- name of the stream at position p: 5-digit zero-padded position + 'r' (racing) / 'f' (filler) -/
+def concName (nf p : Nat) : Bytes :=
+  [digitByte (p / 10000 % 10), digitByte (p / 1000 % 10), digitByte (p / 100 % 10),
+   digitByte (p / 10 % 10), digitByte (p % 10), if p % (1 + nf) = 0 then 114 else 102]
 
-def pConcEvs : Nat → List String → Option (List ConcEv)
-  | 0, ts => if ts = [] then some [] else none
-  | _ + 1, [] => some []
-  | f + 1, "ss" :: ts => (pConcEvs f ts).map (ConcEv.ss :: ·)
-  | f + 1, "se" :: ts => do
-    let (l, r) ← pLoaded ts
-    let rest ← pConcEvs f r
-    pure (.se l :: rest)
-  | f + 1, t :: ts =>
-    match t.splitOn "." with
-    | ["cs", a, b] => do
-      let i ← nat? a; let k ← nat? b
-      let rest ← pConcEvs f ts
-      pure (.cs i k :: rest)
-    | ["cd", a, b] => do
-      let i ← nat? a; let k ← nat? b
-      let rest ← pConcEvs f ts
-      pure (.cd i k :: rest)
-    | _ => none
+/-- offset of the stream at position p after k commits (k > p): commit p+1 created it with offset
+    p+1; a racing stream j = p/(1+nf) is then overwritten by the commits P+t with (t−1) mod m = j -/
+def concOffset (m nf k p : Nat) : Nat :=
+  let P := m * (1 + nf)
+  if p % (1 + nf) = 0 ∧ k > P then
+    let j := p / (1 + nf)
+    let t := k - P
+    if t ≥ j + 1 then P + (t - (t - 1 - j) % m) else p + 1
+  else p + 1
 
-/-- offsets of a source after its first k commits: 10·j to stream "a" (j odd) / "b" (j even) -/
-def concState : Nat → CommitSnap.SMap
-  | 0 => []
-  | k + 1 => setOffset (concState k) (if (k + 1) % 2 = 1 then [97] else [98]) (10 * ((k + 1 : Nat) : Int))
+/-- the table of a source after its first k commits (SliceMap order = name order) -/
+def concTable (m nf k : Nat) : List (Bytes × Int) :=
+  (List.range (min k (m * (1 + nf)))).map (fun p => (concName nf p, ((concOffset m nf k p : Nat) : Int)))
 
-def bump (l : List Nat) (i : Nat) : List Nat :=
-  (l.zipIdx).map (fun (x, j) => if j + 1 = i then x + 1 else x)
+def maxOffset (l : List (Bytes × Int)) : Int := l.foldl (fun a kv => if kv.2 > a then kv.2 else a) 0
 
-/-- source i's loaded entry must be its state after k commits for some k between the commits that
-    had returned when the save started and those that had started when it returned -/
-def concEntryOk (loaded : JobTable) (i lo hi : Nat) : Bool :=
+/-- ONE moment per source: the whole loaded stream table of source i is the job's table after k
+    commits for a single k with lo ≤ k ≤ hi (k is recovered from the table: commit k carries offset
+    k, so it is the largest offset). A source missing from the file had no stream when it was read. -/
+def concSourceOk (m nf : Nat) (loaded : JobTable) (i lo hi : Nat) : Bool :=
   match loaded.find? (fun j => j.sourceID == i) with
   | none => lo == 0
   | some j =>
-    j.filename == (seqJob (i, [])).filename &&
-    (List.range (hi + 1)).any (fun k => decide (lo ≤ k) && decide (1 ≤ k) &&
-      (canonJob j).offsets == (canonJob (seqJob (i, concState k))).offsets)
+    let k := (maxOffset j.offsets).toNat
+    j.filename == (seqJob (i, [])).filename && decide (lo ≤ k) && decide (k ≤ hi) && decide (1 ≤ k) &&
+    j.offsets == concTable m nf k
 
-def concCheck (nsrc : Nat) : List ConcEv → List Nat → List Nat → Option (List Nat) → Bool
-  | [], _, _, _ => true
-  | .cs i _ :: evs, started, done, lo => concCheck nsrc evs (bump started i) done lo
-  | .cd i _ :: evs, started, done, lo => concCheck nsrc evs started (bump done i) lo
-  | .ss :: evs, started, done, _ => concCheck nsrc evs started done (some done)
-  | .se l :: evs, started, done, lo =>
-    (match l, lo with
-     | .ok loaded, some los =>
-       loaded.all (fun j => decide (1 ≤ j.sourceID ∧ j.sourceID ≤ nsrc)) &&
-       (List.range nsrc).all (fun n => concEntryOk loaded (n + 1) (los.getD n 0) (started.getD n 0))
-     | _, _ => false) && concCheck nsrc evs started done none
+structure ConcSave where
+  lo : List Nat
+  hi : List Nat
+  loaded : PM JobTable
+
+def pConcSaves (nsrc : Nat) : Nat → List String → Option (List ConcSave)
+  | 0, ts => if ts = [] then some [] else none
+  | _ + 1, [] => some []
+  | f + 1, "s" :: ts => do
+    let (lo, r) ← pRep pNat nsrc ts
+    let (hi, r) ← pRep pNat nsrc r
+    let (l, r) ← pLoaded r
+    let rest ← pConcSaves nsrc f r
+    pure (⟨lo, hi, l⟩ :: rest)
+  | _ + 1, _ => none
+
+def concSaveOk (nsrc m nf : Nat) (sv : ConcSave) : Bool :=
+  match sv.loaded with
+  | .ok loaded =>
+    loaded.all (fun j => decide (1 ≤ j.sourceID ∧ j.sourceID ≤ nsrc)) &&
+    (List.range nsrc).all (fun n => concSourceOk m nf loaded (n + 1) (sv.lo.getD n 0) (sv.hi.getD n 0))
+  | .error _ => false
 
 def handleConc (args impl : List String) : Option (String × String) := do
   let (nsrc, r) ← pNat args
+  let (m, r) ← pNat r
+  let (nf, r) ← pNat r
   let (_, r) ← pNat r
   let (_, r) ← pNat r
   if r ≠ [] then none
-  match pConcEvs (impl.length + 1) impl with
+  match pConcSaves nsrc (impl.length + 1) impl with
   | none => some ("bad-trace", if impl.any (·.startsWith "panic") then "fail" else "bad-impl")
-  | some evs =>
-    let z := List.replicate nsrc 0
-    some (unwords impl, if concCheck nsrc evs z z none then "ok" else "fail")
+  | some svs => some (unwords impl, if svs.all (concSaveOk nsrc m nf) then "ok" else "fail")
 
 /-! ### c07.proto: the save protocol under injected failures and kills -/
 
